@@ -77,8 +77,33 @@ Cases == <<
   [class |-> "root_length_beyond_file", root |-> OneTile, leaves |-> <<>>, patch |-> [root_len |-> TwoP40]],
   [class |-> "metadata_length_beyond_file", root |-> OneTile, leaves |-> <<>>, patch |-> [meta_len |-> TwoP60]],
   [class |-> "metadata_offset_max", root |-> OneTile, leaves |-> <<>>, patch |-> [meta_off |-> U!Max]],
-  [class |-> "root_offset_max", root |-> OneTile, leaves |-> <<>>, patch |-> [root_off |-> U!Max]]
+  [class |-> "root_offset_max", root |-> OneTile, leaves |-> <<>>, patch |-> [root_off |-> U!Max]],
+  \* parseable but ill-ordered directories: duplicate IDs, a pointer at ID 0 followed by an entry with the same ID,
+  \* overlapping runs, a tile whose end (data offset + offset + length) passes 2^64 although its start does not
+  [class |-> "duplicate_ids", root |-> Dir(<<N(5), N(0)>>, <<N(1), N(1)>>, <<N(4), N(4)>>, <<N(1), N(0)>>), leaves |-> <<>>, patch |-> NoPatch],
+  [class |-> "pointer_at_zero_then_same_id", root |-> Dir(<<N(0), N(0)>>, <<N(0), N(1)>>, <<N(64), N(4)>>, <<N(1), N(1)>>),
+     leaves |-> << OneTile \o [i \in 1..(64 - Len(OneTile)) |-> 0] >>, patch |-> NoPatch],
+  [class |-> "pointer_then_pointer_same_id", root |-> Dir(<<N(3), N(0)>>, <<N(0), N(0)>>, <<N(64), N(64)>>, <<N(1), N(1)>>),
+     leaves |-> << OneTile \o [i \in 1..(64 - Len(OneTile)) |-> 0] >>, patch |-> NoPatch],
+  [class |-> "overlapping_runs", root |-> Dir(<<N(5), N(1)>>, <<N(9), N(9)>>, <<N(4), N(4)>>, <<N(1), N(0)>>), leaves |-> <<>>, patch |-> NoPatch],
+  [class |-> "tile_end_passes_2p64", root |-> Dir(<<N(5)>>, <<N(1)>>, <<N(9)>>, <<N(101)>>), leaves |-> <<>>,
+     patch |-> [data_off |-> <<65535, 65535, 65535, 65432>>]],
+  [class |-> "tile_length_u32_max_at_end", root |-> Dir(<<N(5)>>, <<N(1)>>, <<<<0, 0, 65535, 65535>>>>, <<N(1)>>), leaves |-> <<>>, patch |-> NoPatch],
+  [class |-> "leaf_length_u32_max", root |-> Dir(<<N(5)>>, <<N(0)>>, <<<<0, 0, 65535, 65535>>>>, <<N(1)>>), leaves |-> <<>>, patch |-> NoPatch]
 >>
+
+(* ---- exhaustive small scope: every directory of 1 or 2 entries whose 4 columns range over boundary tokens ---- *)
+TokId  == {N(0), N(1), N(2), U!Max}
+TokRun == {N(0), N(1), N(2)}
+TokLen == {N(0), N(1), N(64)}
+TokOff == {N(0), N(1), N(2), U!Max}
+OneLeaf == << OneTile \o [i \in 1..(64 - Len(OneTile)) |-> 0] >>
+TokenCases ==
+  { [class |-> "tokens", root |-> Dir(ids, runs, lens, offs), leaves |-> OneLeaf, patch |-> NoPatch] :
+      ids \in [1..1 -> TokId], runs \in [1..1 -> TokRun], lens \in [1..1 -> TokLen], offs \in [1..1 -> TokOff] }
+  \cup
+  { [class |-> "tokens", root |-> Dir(ids, runs, lens, offs), leaves |-> OneLeaf, patch |-> NoPatch] :
+      ids \in [1..2 -> TokId], runs \in [1..2 -> TokRun], lens \in [1..2 -> TokLen], offs \in [1..2 -> TokOff] }
 
 VARIABLE k
 Init == k \in 1..Len(Cases)
@@ -91,7 +116,9 @@ Expected(c) ==
                     "overbudget_run_2p32_minus_1", "root_length_beyond_file", "metadata_length_beyond_file",
                     "metadata_offset_max", "root_offset_max", "leaf_offset_near_2p64", "leaf_pointer_outside_section",
                     "leaf_pointer_self_cycle", "leaf_pointer_two_cycle", "self_cycle_fanout_2", "chain_of_3_leaves",
-                    "chain_of_10_leaves", "chain_of_100_leaves", "chain_of_1000_leaves"} -> "ok"
+                    "chain_of_10_leaves", "chain_of_100_leaves", "chain_of_1000_leaves", "duplicate_ids",
+                    "pointer_at_zero_then_same_id", "pointer_then_pointer_same_id", "overlapping_runs",
+                    "tile_end_passes_2p64", "tile_length_u32_max_at_end", "leaf_length_u32_max"} -> "ok"
     [] c.class \in {"count_2p31", "count_2p40", "count_2p60", "count_max", "count_exceeds_input_by_one"} -> "count_gt_input"
     [] c.class = "id_sum_overflow" -> "id_overflow"
     [] c.class = "first_offset_zero" -> "first_offset_zero"
@@ -106,4 +133,11 @@ Classified ==
     [] Expected(c) = "eof_or_count" -> r.kind = "err" /\ r.class \in {"eof", "count_gt_input"}
     [] OTHER -> r.kind = "err" /\ r.class = Expected(c)
 GenHazards == PrintT(<<"STIM", ToJson(Cases[k])>>)
+
+\* second generator: the token enumeration (k ranges over the set itself)
+InitTok == k \in TokenCases
+SpecTok == InitTok /\ [][Next]_k
+\* the specification's decoder is total on every one of them
+TotalOnTokens == D!DecDir(k.root).kind \in {"ok", "err"}
+GenTokens == PrintT(<<"STIM", ToJson(k)>>)
 =============================================================================
